@@ -783,6 +783,16 @@ def r14(ctx, rep):
                 elif t in GLOBAL_STATE_CALLS:
                     n += 1
                     rep.violated('R1.4', fn, norm(node), '%s changes process-global state' % t, node)
+    # mutable objects at module level that library code fills (memos): shared by every view and every iterator
+    from .common import module_state_mutations
+    for fn in ctx.functions(['petl.transform', 'petl.util', 'petl.io']):
+        if fn.name.startswith('register_') or fn.name.startswith('_register'):
+            continue        # user-invoked registration of handlers
+        for node, g in module_state_mutations(fn):
+            n += 1
+            rep.violated('R1.4', fn, norm(node)[:60],
+                         'the module-level object `%s` is changed from library code: every view and every iterator of the '
+                         'process shares it, so what one iteration did changes what another one sees' % g, node)
     rep.count('global_state_sites', n)
 
 
